@@ -103,7 +103,7 @@ def _instances(targets, tier, first_only=False):
 # quick tier: designs that are compiled with non-default OPTIONS (bounds the number of (design, options) goldens)
 OPT_DESIGNS = ["name_collisions", "class_helper_objects", "prefix_named", "sync_flag_delay", "inline_entity",
                "comb_logic"]
-QUICK_SHARDS = {"hist": 6, "ixv": 4, "vxv": 3, "opt": 1, "hashseed": 1}
+QUICK_SHARDS = {"hist": 6, "ixv": 4, "vxv": 3, "opt": 1, "hashseed": 1, "recompile": 1}
 QUICK_STRIDE = {"ixv": 6, "vxv": 14}  # quick: every n-th ordered pair per victim (rotating); thorough: all pairs
 
 
@@ -113,7 +113,7 @@ def plan(tier):
     n_hyp, per, maxlen = (QUICK_SHARDS["hist"], 10, 8) if quick else (48, 60, 24)
     for i in range(n_hyp):
         shards.append({"kind": "hyp", "name": f"hist{i}", "examples": per, "maxlen": maxlen, "pool": i, "tier": tier})
-    for space, n_thorough in (("ixv", 24), ("vxv", 24), ("hashseed", 12), ("opt", 8)):
+    for space, n_thorough in (("ixv", 24), ("vxv", 24), ("hashseed", 12), ("opt", 8), ("recompile", 4)):
         n = QUICK_SHARDS[space] if quick else n_thorough
         for i in range(n):
             shards.append({"kind": "enum", "name": f"{space}{i}", "space": space, "part": i, "parts": n, "tier": tier})
@@ -127,7 +127,45 @@ def _dspec(name, vi):
     return {"d": name, "p": D.variants(name)[vi]}
 
 
+RECOMPILE_DESIGNS = ["prefix_in_sequential", "prefix_in_context", "prefix_named", "name_collisions"]
+RECOMPILE_FILLERS = ["comb_logic", "seq_counter", "enum_state"]
+
+
+def _enumerate_recompile(shard):
+    """Long histories that compile one small design that derives names from counters (std.prefix / std.name /
+    NamedQualifier inside a traced context, uniquified names) again and again, interleaved with 0-3 compiles of
+    other small designs so that the heap layout differs from compile to compile: effects that depend on the
+    allocation history (object addresses reused after a compilation) only show after many compilations."""
+    quick = shard["tier"] == "quick"
+    designs = RECOMPILE_DESIGNS[:2] if quick else RECOMPILE_DESIGNS
+    rounds = [(14, 10, 8)] if quick else [(24, 20, 16), (30, 10, 20)]
+    k = 0
+    for name in designs:
+        for vi in (range(1) if quick else range(min(2, len(D.variants(name))))):
+            for back_to_back, mixed, no_gc in rounds:
+                k += 1
+                if k % shard["parts"] != shard["part"]:
+                    continue
+                ds = [_dspec(name, vi)] + [_dspec(f, 0) for f in RECOMPILE_FILLERS]
+                G = {"gc": True}
+                ops = [["c", 0, "Top"]]
+                for i in range(back_to_back):  # the same allocations in the same order, garbage freed in between
+                    ops.append([("c", "a", "c", "f")[i % 4], 0, "Top", G])
+                for i in range(mixed):  # 0-3 other compilations in between
+                    for j in range(i % 4):
+                        ops.append(["c", 1 + (i + j) % len(RECOMPILE_FILLERS), "Top"])
+                    ops.append([("c", "f", "a", "c")[i % 4], 0, "Top", G])
+                for i in range(no_gc):  # garbage collected whenever the interpreter decides to
+                    for j in range((i + 1) % 3):
+                        ops.append(["c", 1 + (i + j) % len(RECOMPILE_FILLERS), "Top"])
+                    ops.append(["c", 0, "Top"])
+                yield {"designs": ds, "ops": ops}
+
+
 def enumerate(shard):  # noqa: A001 - name fixed by the module contract
+    if shard["space"] == "recompile":
+        yield from _enumerate_recompile(shard)
+        return
     if shard["tier"] == "quick":
         yield from _enumerate_quick(shard)
         return
@@ -219,7 +257,8 @@ def _enumerate_quick(shard):
             if "alias_unnamed" in D.tags(n):
                 # names derived from Python names (known to be order sensitive): all seeds, also in quick
                 if part == 0:
-                    seeds = SEEDS_QUICK + [4] if n == "alias_unnamed_closure" else SEEDS_QUICK[:3]
+                    seeds = (SEEDS_QUICK + [4] if n == "alias_unnamed_closure" else
+                             SEEDS_QUICK if n == "alias_unnamed_nested" else SEEDS_QUICK[:3])
                     yield {"designs": [_dspec(n, v)], "ops": [["c", 0, t]], "hashseeds": seeds}
             elif k % 2 == 0 and (k // 2) % parts == part:
                 # every second design, one extra fresh interpreter each; the seed values rotate over the designs
@@ -454,7 +493,10 @@ def _goldens(keys, threads=4):
 
 def _optkey(op):
     """canonical text of the compile options of an op ("" = default compile)"""
-    return canon(op[3]) if len(op) > 3 and op[3] else ""
+    if len(op) > 3 and op[3]:
+        opts = {k: v for k, v in op[3].items() if k != "gc"}  # "gc" is a history event, not a compile option
+        return canon(opts) if opts else ""
+    return ""
 
 
 def _golden(source, top, seed=0, optkey=""):
